@@ -158,10 +158,12 @@ def gen_level_fn(level, lid, sub_ids):
     return L
 
 
-def gen_driver(pkg, clayout):
+def gen_driver(pkg, clayout, checked=True):
     """C++ source of the C04 driver for all messages of one schema; `clayout` is
-    the answer of the model to `cursor (layout (schema ...))`"""
-    src = ['#define SBEPP_ENABLE_ASSERTS_WITH_HANDLER', '#include <%s/%s.hpp>' % (pkg, pkg),
+    the answer of the model to `cursor (layout (schema ...))`.  `checked=False`:
+    assertions and size checks compiled out (SBEPP_DISABLE_ASSERTS)"""
+    src = ['#define SBEPP_ENABLE_ASSERTS_WITH_HANDLER' if checked else '#define SBEPP_DISABLE_ASSERTS',
+           '#include <%s/%s.hpp>' % (pkg, pkg),
            '#include "c04_driver.hpp"', '']
     ids = wire.counter()
     table = []
@@ -193,14 +195,15 @@ def gen_driver(pkg, clayout):
     return '\n'.join(src) + '\n'
 
 
-def build_driver(case, clayout, cxx, std):
+def build_driver(case, clayout, cxx, std, checked=True):
     """compile the C04 driver of a wire.SchemaCase (sbeppc output is in case.dir/gen)"""
-    src = os.path.join(case.dir, 'c04_driver.cpp')
+    tag = '' if checked else '_unchecked'
+    src = os.path.join(case.dir, 'c04_driver%s.cpp' % tag)
     if not os.path.exists(src):
         tmp = src + '.%d.%s%s' % (os.getpid(), cxx, std)
-        open(tmp, 'w').write(gen_driver(case.s['package'], clayout))
+        open(tmp, 'w').write(gen_driver(case.s['package'], clayout, checked))
         os.replace(tmp, src)
-    exe = os.path.join(case.dir, 'c04-%s-%s' % (cxx.replace('+', 'p'), std))
+    exe = os.path.join(case.dir, 'c04%s-%s-%s' % (tag, cxx.replace('+', 'p'), std))
     cmd = [cxx, '-std=' + std, '-O0', '-g0', '-w', '-fsanitize=undefined', '-fsanitize-undefined-trap-on-error',
            '-I' + os.path.join(case.dir, 'gen'), '-I' + os.path.join(core.REPO, 'sbepp/src'),
            '-I' + os.path.join(core.VERIF, 'harness'), src, '-o', exe]
